@@ -99,3 +99,85 @@ Definition agree (c : ucase) : bool :=
 Definition commit_window (c : ucase) : bool :=
   let '(f, (ns, _), (nc, _), _, _, _) := c in
   broke (predict f ns nc).
+
+(** ** Forced schedules: a raw protocol peer drives the real server one link-level action at a time.
+    The model takes the same action, lets the server's own steps run to completion, and must show
+    the same outputs: the poll response that completed (if any), the frames that came out of the
+    websocket, everything delivered to the server application so far, the server's transport. *)
+Inductive act := ASend | AGet | ADial | APing | AUpg | AWsMsg | APost.
+
+Definition server_closure : list label :=
+  [SAccept; PostDeliver 0; PostOk; SRecvWs; SNoopGo; SDiscGo; GetArrive; GetRoute; GetFirst; GetWake].
+Definition settle (st : state) : state := run (server_closure ++ server_closure ++ server_closure) st.
+
+Definition inj (p : pkt) (st : state) : state :=
+  match k_ws st with WOpen => set_k_cs (k_cs st ++ [p]) st | _ => st end.
+
+Definition do_act (a : act) (st : state) : state :=
+  match a with
+  | ASend => step_skip st SSend
+  | AGet => (* the raw peer's GET: one at a time, not bound to the model client's poll loop *)
+            match c_loop st with LFlight => st | _ => set_c_loop LFlight (set_k_req true st) end
+  | ADial => step_skip st CDial
+  | APing => inj Ping st
+  | AUpg => inj Upg st
+  | AWsMsg => set_c_sent (N.succ (c_sent st)) (inj (Msg (c_sent st)) st)
+  | APost => step_skip st CSend
+  end.
+
+Definition code (p : pkt) : Z :=
+  match p with Msg n => Z.of_N n | Noop => -1 | Pong => -2 | _ => -3 end%Z.
+
+Definition fobs := (option (list Z) * list Z * list N * bool)%type.
+
+Definition observe (st : state) : fobs * state :=
+  let r := match k_resp st with
+           | RNone => None | RPkts l => Some (map code l) | RBad => Some [(-9)%Z] end in
+  let st1 := match k_resp st with RNone => st | _ => set_k_resp RNone (set_c_loop LIdle st) end in
+  ((r, map code (k_sc st), s_recv st, s_ws st), set_k_sc [] st1).
+
+Fixpoint frun (acts : list act) (st : state) : list fobs :=
+  match acts with
+  | [] => []
+  | a :: r => let '(o, st') := observe (settle (do_act a st)) in o :: frun r st'
+  end.
+
+(** what the rig waits for at each step: (poll response?, #frames, #deliveries so far, on websocket?) *)
+Definition fexpect (acts : list act) : list (list nat) :=
+  map (fun o : fobs => let '(r, w, s, t) := o in
+         [match r with Some _ => 1 | None => 0 end; length w; length s; if t then 1 else 0])
+      (frun acts init).
+
+Definition fobs_eqb (a b : fobs) : bool :=
+  let '(ra, wa, sa, ta) := a in let '(rb, wb, sb, tb) := b in
+  match ra, rb with
+  | None, None => true
+  | Some x, Some y => list_eqb Z.eqb x y
+  | _, _ => false
+  end && list_eqb Z.eqb wa wb && list_eqb N.eqb sa sb && Bool.eqb ta tb.
+
+Definition fcase := (list act * list fobs)%type.
+
+Definition agree_forced (c : fcase) : bool := let '(acts, obs) := c in list_eqb fobs_eqb (frun acts init) obs.
+
+(** Property on the observation alone: what came out of the server (poll responses and websocket
+    frames together) has no duplicate and nothing invented; once the schedule has upgraded, every
+    message the server application sent has come out exactly once; deliveries to the server
+    application are duplicate-free and were sent. *)
+Definition count_act (a : act) (acts : list act) : nat :=
+  length (filter (fun b => match a, b with
+                           | ASend, ASend | AUpg, AUpg | AWsMsg, AWsMsg | APost, APost => true
+                           | _, _ => false end) acts).
+
+Definition oracle_forced (c : fcase) : bool :=
+  let '(acts, obs) := c in
+  let outs := flat_map (fun o => let '(r, w, _, _) := o in
+                 (match r with Some l => l | None => [] end) ++ w) obs in
+  let ids := map Z.to_N (filter (fun z => (0 <=? z)%Z) outs) in
+  let ns := count_act ASend acts in
+  let nc := count_act AWsMsg acts + count_act APost acts in
+  let srecv := match rev obs with (_, _, s, _) :: _ => s | [] => [] end in
+  nodupb ids && subsetb ids (seqN 0 ns)
+  && (if Nat.ltb 0 (count_act AUpg acts) && existsb (fun o => let '(_, _, _, t) := o in t) obs
+      then msetb ids (seqN 0 ns) else true)
+  && nodupb srecv && subsetb srecv (seqN 0 nc).
